@@ -490,7 +490,11 @@ func (b *Blockchain) EventFilter(
 
 // RevertHead reverts the head block
 func (b *Blockchain) RevertHead() error {
-	return b.stateBackend.RevertHead()
+	err := b.stateBackend.RevertHead()
+	// A cached window may cover the reverted block: once the window is completed again with
+	// different blocks, the cached copy would hide their events. Reverts are rare; drop the cache.
+	b.cachedFilters.Reset()
+	return err
 }
 
 func (b *Blockchain) GetReverseStateDiff() (core.StateDiff, error) {
